@@ -113,6 +113,7 @@ type Exec struct {
 	userState map[string]Value
 	lockWaiters []*G
 	findKey string
+	failedAlways int
 	shared  *sync.Map
 	initTopInstr ssa.Instruction
 	initTopIP int
